@@ -131,6 +131,37 @@ Theorem C12_forceesmtp : forall s fs d, doc_forceesmtp s fs = Some d ->
 Proof. exact forceesmtp_doc. Qed.
 Print Assumptions C12_forceesmtp.
 
+(** cb_dnsbl with DNS as an oracle ([doc_walk]: the first listing among the usable list names decides): a client
+    listed in the effective dnsbl file (user / domain / global, "!inherit" honoured) is refused with the filter's own
+    501 naming that list, unless a list of the effective whitednsbl file (user / domain) lists it too; temporary
+    resolver errors without a listing give a temporary refusal, a local error an error.  Never undefined behaviour
+    (finding F-C12-4: the unfixed log line read c[i] behind the whitelist array). *)
+Theorem C12_dnsbl : forall s fs d, doc_dnsbl s fs = Some d -> exists o, cb_dnsbl s fs = Some o /\ same_obs o d.
+Proof. exact dnsbl_doc. Qed.
+Print Assumptions C12_dnsbl.
+
+(** the code as shipped: third list hits, the one-entry whitelist hits: strlen() of what lies behind the array *)
+Theorem C12_dnsbl_unfixed_refuted :
+  let s := mk_rsession false true false false false 0 0 [102; 64; 101; 120; 97; 109; 112; 108; 101; 46; 111; 114; 103]%N [104; 46; 101; 120; 97; 109; 112; 108; 101; 46; 110; 101; 116]%N (repeat 0%N 16) [] [0; 0; 1; 1]%N 0 in
+  let fs := [(1%N, NAME_DNSBL, [97; 46; 101; 120; 97; 109; 112; 108; 101; 46; 110; 101; 116; 10; 98; 46; 101; 120; 97; 109; 112; 108; 101; 46; 110; 101; 116; 10; 99; 46; 101; 120; 97; 109; 112; 108; 101; 46; 110; 101; 116; 10]%N);
+             (1%N, NAME_WHITEDNSBL, [119; 46; 101; 120; 97; 109; 112; 108; 101; 46; 110; 101; 116; 10]%N)] in
+  cb_dnsbl_gen false s fs = None /\ exists d, doc_dnsbl s fs = Some d /\ d_res d = FPassed.
+Proof. cbv zeta. split; [vm_compute; reflexivity|]. eexists. split; [vm_compute; reflexivity|reflexivity]. Qed.
+Print Assumptions C12_dnsbl_unfixed_refuted.
+
+(** cb_namebl: the sender's domain and its parent domains against every list of the effective namebl file, list by
+    list; same oracle reading.  Never undefined behaviour, whatever an earlier filter left in *t (finding F-C12-5:
+    the unfixed code indexed blocktype[] with it on entry). *)
+Theorem C12_namebl : forall s fs d, doc_namebl s fs = Some d -> exists o, cb_namebl s fs = Some o /\ same_obs o d.
+Proof. exact namebl_doc. Qed.
+Print Assumptions C12_namebl.
+
+Theorem C12_namebl_unfixed_refuted :
+  let s := mk_rsession false true false false false 0 0 [102; 64; 101; 120; 97; 109; 112; 108; 101; 46; 111; 114; 103]%N [104; 46; 101; 120; 97; 109; 112; 108; 101; 46; 110; 101; 116]%N (repeat 0%N 16) [] [] (-22) in
+  cb_namebl_gen true s [] = None /\ exists d, doc_namebl s [] = Some d /\ d_res d = FPassed.
+Proof. cbv zeta. split; [vm_compute; reflexivity|]. eexists. split; [vm_compute; reflexivity|reflexivity]. Qed.
+Print Assumptions C12_namebl_unfixed_refuted.
+
 (** ---- the tie: the checker run on every C output of the rfilters engine ---- *)
 
 (** wherever the documentation defines the outcome of a case (raw case fields: filter id, session, files), the model
